@@ -14,6 +14,70 @@
 #include <atomic>
 #endif
 
+#if defined(FOONATHAN_MEMORY_VERIF) && FOONATHAN_MEMORY_TEMPORARY_STACK_MODE >= 2
+// verification hook (guarded, see /verif): every access to the shared variables of the temporary
+// stack list is announced to foonathan_memory_verif_point() before it is performed,
+// so that a controlled scheduler can enumerate interleavings of the real code
+extern "C" void foonathan_memory_verif_point(int kind, const void* obj, long value);
+namespace foonathan
+{
+    namespace memory
+    {
+        namespace detail
+        {
+            // kinds: 1 load, 2 store, 3 exchange, 4 compare-exchange, 5 compare-exchange result,
+            // 10 thread-local stack pointer set, 11 thread exit detector, 12 nifty counter, 13 list destroyed
+            template <typename T>
+            class verif_atomic
+            {
+            public:
+                verif_atomic() noexcept = default;
+                verif_atomic(T v) noexcept : a_(v) {}
+
+                T load() const noexcept
+                {
+                    foonathan_memory_verif_point(1, this, 0);
+                    return a_.load();
+                }
+                operator T() const noexcept
+                {
+                    return load();
+                }
+                void store(T v) noexcept
+                {
+                    foonathan_memory_verif_point(2, this, 0);
+                    a_.store(v);
+                }
+                T operator=(T v) noexcept
+                {
+                    store(v);
+                    return v;
+                }
+                T exchange(T v) noexcept
+                {
+                    foonathan_memory_verif_point(3, this, 0);
+                    return a_.exchange(v);
+                }
+                bool compare_exchange_strong(T& expected, T desired) noexcept
+                {
+                    foonathan_memory_verif_point(4, this, 0);
+                    auto res = a_.compare_exchange_strong(expected, desired);
+                    foonathan_memory_verif_point(5, this, res);
+                    return res;
+                }
+                bool compare_exchange_weak(T& expected, T desired) noexcept
+                {
+                    return compare_exchange_strong(expected, desired);
+                }
+
+            private:
+                std::atomic<T> a_;
+            };
+        } // namespace detail
+    } // namespace memory
+} // namespace foonathan
+#endif
+
 namespace foonathan
 {
     namespace memory
@@ -65,7 +129,11 @@ namespace foonathan
 
             private:
                 temporary_stack_list_node* next_ = nullptr;
+#if defined(FOONATHAN_MEMORY_VERIF)
+                verif_atomic<bool> in_use_;
+#else
                 std::atomic<bool>          in_use_;
+#endif
 
                 friend temporary_stack_list;
             };
